@@ -42,7 +42,14 @@ def use_repo() -> None:
 
 
 class Violation(Exception):
-    """The property does not hold on the current case."""
+    """The property does not hold on the current case.
+
+    ``case`` optionally overrides the case stored in the replay file (used by chunked
+    enumerations to store the single offending item instead of the whole chunk)."""
+
+    def __init__(self, msg: str, case: Any = None) -> None:
+        super().__init__(msg)
+        self.case = case
 
 
 class HarnessError(Exception):
@@ -103,6 +110,7 @@ class Recorder:
         self.nontrivial: set[int] = set()
         self.classes: Counter = Counter()
         self.samples: list[tuple[int, Any]] = []
+        self.bulk_nontrivial = 0
         self.max_samples = max_samples
         self._cur_case: Any = None
         self._cur_hash: Optional[int] = None
@@ -111,6 +119,20 @@ class Recorder:
         self.evaluations += 1
         self._cur_case = case
         self._cur_hash = None
+
+    def __call__(self, nontrivial: bool = True, *classes: str) -> None:
+        self.note(nontrivial, *classes)
+
+    def bulk(self, evaluations: int, nontrivial: int, sample: Any = None, **classes: int) -> None:
+        """Account for a chunk of an enumeration handled inside one body call: every item of an
+        enumeration is distinct by construction, so non-trivial items are simply counted."""
+        self.evaluations += evaluations - 1  # begin() counted the chunk as one
+        self.bulk_nontrivial += nontrivial
+        for k, v in classes.items():
+            if v:
+                self.classes[k] += v
+        if sample is not None and len(self.samples) < self.max_samples:
+            self.samples.append((case_hash(sample), sample))
 
     def note(self, nontrivial: bool = True, *classes: str) -> None:
         for c in classes:
@@ -137,6 +159,7 @@ class JobResult:
     nontrivial: set = field(default_factory=set)
     classes: Counter = field(default_factory=Counter)
     samples: list = field(default_factory=list)
+    bulk_nontrivial: int = 0
     failure: Optional[dict] = None  # {"case":..., "message":...}
     harness_error: Optional[str] = None
     wall_s: float = 0.0
@@ -173,7 +196,7 @@ def run_body(clause: Clause, case: Any, rec: Recorder) -> None:
     """Run body on one case, converting unexpected library exceptions to Violation."""
     rec.begin(case)
     try:
-        clause.body(case, rec.note)
+        clause.body(case, rec)
     except Violation:
         raise
     except HarnessError:
@@ -212,6 +235,7 @@ def run_job(prop: str, clause: Clause, tier: str, seed: int, shard: int, nshards
         res.harness_error = "harness exception: " + traceback.format_exc()
     res.evaluations = rec.evaluations
     res.nontrivial = rec.nontrivial
+    res.bulk_nontrivial = rec.bulk_nontrivial
     res.classes = rec.classes
     res.samples = rec.samples
     res.wall_s = time.time() - t0
@@ -226,7 +250,7 @@ def _run_enum(clause: Clause, tier: str, shard: int, nshards: int, rec: Recorder
         try:
             run_body(clause, case, rec)
         except Violation as v:
-            res.failure = {"case": case, "message": str(v)}
+            res.failure = {"case": case if v.case is None else v.case, "message": str(v)}
             return
     res.exhaustive = True
 
@@ -245,7 +269,7 @@ def _run_given(prop: str, clause: Clause, tier: str, seed: int, shard: int, rec:
         try:
             run_body(clause, case, rec)
         except Violation as v:
-            last["case"] = case
+            last["case"] = case if v.case is None else v.case
             last["message"] = str(v)
             raise
 
@@ -400,21 +424,25 @@ def run_property(prop: str, tier: str, seed: int, only: Optional[list[str]] = No
     classes: Counter = Counter()
     samples: list = []
     any_exhaustive = False
+    bulk_total = 0
     for c in clauses:
         outs_c = results[c.name]
         ev = sum(o.evaluations for o in outs_c)
         nt: set = set()
         cl: Counter = Counter()
+        bulk = 0
         for o in outs_c:
             nt |= {(c.name, h) for h in o.nontrivial}
             cl.update(o.classes)
+            bulk += o.bulk_nontrivial
+        bulk_total += bulk
         exhaustive = c.source == "enum" and all(o.exhaustive for o in outs_c) and bool(outs_c)
         any_exhaustive = any_exhaustive or exhaustive
         smp = sorted((s for o in outs_c for s in o.samples), key=lambda t: t[0])[: c.max_samples]
         entry = {
             "source": c.source,
             "evaluations": ev,
-            "distinct_nontrivial": len(nt),
+            "distinct_nontrivial": len(nt) + bulk,
             "rule": c.rule,
             "classes": dict(sorted(cl.items())),
             "shards": len(outs_c),
@@ -446,7 +474,7 @@ def run_property(prop: str, tier: str, seed: int, only: Optional[list[str]] = No
         "level": "exploration",
         "coverage": {
             "evaluations": total_eval,
-            "distinct_nontrivial": len(all_nontriv),
+            "distinct_nontrivial": len(all_nontriv) + bulk_total,
             "rule": rule,
             "samples": _trim_samples(samples),
             "clauses": cov_clauses,
@@ -474,7 +502,7 @@ def run_property(prop: str, tier: str, seed: int, only: Optional[list[str]] = No
         print(f"  clause={cname}: {msg[:1500]}")
     print(
         f"{prop} tier={tier} seed={seed} clauses={len(clauses)} evaluations={total_eval} "
-        f"distinct_nontrivial={len(all_nontriv)} violations={len(violations)} wall={time.time()-t0:.1f}s"
+        f"distinct_nontrivial={len(all_nontriv) + bulk_total} violations={len(violations)} wall={time.time()-t0:.1f}s"
     )
     if violations:
         return 1
